@@ -2,6 +2,8 @@ mod rng;
 mod p_diff;
 mod p_consts;
 mod p_config;
+mod p_exec;
+mod p_cli;
 
 use std::io::{BufWriter, Write};
 
@@ -14,6 +16,9 @@ fn main() {
     match args[0].as_str() {
         "diff" => p_diff::main(&args[1..], &mut w),
         "config" => p_config::main(&args[1..], &mut w),
+        "exec" => p_exec::main(&args[1..], &mut w),
+        "cli" => p_cli::main(&args[1..], &mut w),
+        "validate" => p_exec::validate_main(&args[1..], &mut w),
         "consts" => p_consts::main(&args[1..], &mut w),
         x => { eprintln!("unknown subcommand {}", x); std::process::exit(2); }
     }
